@@ -47,9 +47,9 @@ PROPS = {
 CODE_VERSION = json.load(open(os.path.join(SPEC, "code_version.json")))
 
 CONFIGS = {
-    ("C07", "quick"): dict(N=4, MaxLen=4, MaxBatch=2, MaxOps=4, MaxFaults=1, MaxCrashes=0),
-    ("C07", "thorough"): dict(N=5, MaxLen=5, MaxBatch=3, MaxOps=5, MaxFaults=2, MaxCrashes=0),
-    ("C08", "quick"): dict(N=4, MaxLen=4, MaxBatch=2, MaxOps=3, MaxFaults=0, MaxCrashes=1),
+    ("C07", "quick"): dict(N=5, MaxLen=5, MaxBatch=3, MaxOps=5, MaxFaults=1, MaxCrashes=0),
+    ("C07", "thorough"): dict(N=5, MaxLen=5, MaxBatch=3, MaxOps=6, MaxFaults=2, MaxCrashes=0),
+    ("C08", "quick"): dict(N=4, MaxLen=4, MaxBatch=2, MaxOps=4, MaxFaults=0, MaxCrashes=2),
     ("C08", "thorough"): dict(N=5, MaxLen=5, MaxBatch=3, MaxOps=5, MaxFaults=1, MaxCrashes=2),
 }
 
